@@ -107,6 +107,22 @@ def gen_compound(rng):
     return e, ("quant", q, dims)
 
 
+def gen_nary_extremum(rng):
+    """math.min / math.max (also through a splat) over 3-5 numbers of one dimension class in mixed units: the result must
+    be one of the operands, unchanged, and extremal as a quantity"""
+    c = rng.choice(CLASSES)
+    units = list(c)
+    n = rng.range(3, 5)
+    ops = [(rng.choice([0.5, 1.0, 2.0, 3.0, 10.0, 25.0, 50.0, 96.0, 100.0, 0.1]), rng.choice(units)) for _ in range(n)]
+    which = rng.choice(["min", "max"])
+    args = ", ".join(lit(x, u) for x, u in ops)
+    e = "math.%s(%s)" % (which, args) if rng.chance(0.7) else "%s((%s)...)" % (which, args)
+    qs = [x * c[u] for x, u in ops]
+    best = min(qs) if which == "min" else max(qs)
+    winners = [(x, u) for (x, u), q in zip(ops, qs) if close(q / best, 1.0)]
+    return e, ("oneof", winners)
+
+
 def lit(x, u):
     s = repr(x) if x != int(x) else str(int(x))
     return s + u
@@ -199,6 +215,13 @@ def check(sh, e, exp, got):
         return None
     if exp[0] == "either":
         return None if any(check(sh, e, ("num", val, un), got) is None for val, un in exp[1:]) else "expected one of the operands, got %s" % d
+    if exp[0] == "oneof":
+        if d.get("t") != "n":
+            return "expected a number, got %s" % d
+        val, nu, du = probe.num(d)
+        if du or len(nu) != 1 or not any(nu[0] == u and close(val, x) for x, u in exp[1]):
+            return "expected one of the extremal operands %s unchanged, got %r%s" % (["%r%s" % w for w in exp[1]], val, "*".join(nu))
+        return None
     if exp[0] == "quant":
         # the physical quantity (value in base units + dimension exponents) is what unit algebra must preserve;
         # which of several convertible factors survives a cancellation is not fixed by the statement
@@ -295,8 +318,11 @@ def run(sh):
     while not sh.expired():
         cases = []
         for _ in range(200):
-            k = rng.below(8)
-            if k >= 5:
+            k = rng.below(10)
+            if k >= 8:
+                cases.append(gen_nary_extremum(rng))
+                sh.count("nary_min_max_cases")
+            elif k >= 5:
                 cases.append(gen_compound(rng))
                 sh.count("compound_quantity_cases")
             elif k == 0:  # round trip a -> b -> a : (1a + 0b) converts b to a; use math.div to convert explicitly
